@@ -83,8 +83,16 @@ func runC18(c *Ctx) {
 	ix := c.Idx()
 	ix.Run()
 	n := 0
+	measuring := map[*ssa.Function]bool{}
+	for _, f := range c.ModFuncs("texttable") {
+		if f.Name() == "UpdateProperties" {
+			for _, h := range pkgReach(f, 1) {
+				measuring[h] = true
+			}
+		}
+	}
 	for _, o := range ix.Obls {
-		if o.Fn.Name() == "UpdateProperties" && funcPkgPath(o.Fn) == pkgPath("texttable") {
+		if measuring[o.Fn] {
 			n++
 			r.CheckHow("R18.3", FuncName(o.Fn), o.Kind+" "+o.What, o.In.Pos(), o.OK, o.How, o.How)
 		}
@@ -99,6 +107,34 @@ func isDeclaredWidth(v ssa.Value) bool {
 		return x.Call.StaticCallee() != nil && x.Call.StaticCallee().Name() == "TerminalCellWidth"
 	case *ssa.UnOp:
 		if fa, ok := x.X.(*ssa.FieldAddr); ok {
+			// a field of a by-value struct parameter: the same field of the struct the (only) caller passes
+			if al, isAl := fa.X.(*ssa.Alloc); isAl && gCtx != nil {
+				var par *ssa.Parameter
+				nst := 0
+				for _, rr := range referrersOf(al) {
+					if st, isSt := rr.(*ssa.Store); isSt && st.Addr == ssa.Value(al) {
+						nst++
+						par, _ = st.Val.(*ssa.Parameter)
+					}
+				}
+				if nst == 1 && par != nil {
+					if a := uniqueActual(gCtx, par); a != nil {
+						if ld, isLd := a.(*ssa.UnOp); isLd {
+							if cal, isCal := ld.X.(*ssa.Alloc); isCal {
+								for _, rr := range referrersOf(cal) {
+									if fa2, ok := rr.(*ssa.FieldAddr); ok && fa2.Field == fa.Field {
+										for _, r3 := range referrersOf(fa2) {
+											if st, ok := r3.(*ssa.Store); ok && st.Addr == ssa.Value(fa2) {
+												return isDeclaredWidth(st.Val)
+											}
+										}
+									}
+								}
+							}
+						}
+					}
+				}
+			}
 			for _, rr := range referrersOf(fa.X) {
 				if fa2, ok := rr.(*ssa.FieldAddr); ok && fa2.Field == fa.Field {
 					for _, r3 := range referrersOf(fa2) {
